@@ -20,7 +20,10 @@ L1_TEXTS = (list(T.NAMED) + list(T.FORMULA) + list(T.GLYCAN) + list(T.SHIFTS) + 
             list(T.DECORATED) + T.ZERO_MASS + T.NO_MASS + ['R:AA0037', 'G:G59626AS', 'Cation:Fe[III]',
                                                             'N6,N6-dimethyl-L-lysine', 'Hex(1)HexNAc(1)',
                                                             '[3-(2,5)-dioxopyrrolidin-1-yloxycarbonyl)-propyl]dimethyloctylammonium',
-                                                            'Formula:[13C2][15N]H6[2H2]', '12345678901234567890.5', '1E3', '-2.5e-7'])
+                                                            'Formula:[13C2][15N]H6[2H2]', '12345678901234567890.5', '1E3', '-2.5e-7',
+                                                            # alternatives containing a number: kept verbatim as one text
+                                                            'Oxidation|15.995', '15.995|Oxidation', '+15.995|Oxidation',
+                                                            'Oxidation|+15.995', '15.995|79.966'])
 L2_TEXTS = ['Oxidation', '15.995', 'UNIMOD:35', 'Label:13C(6)', 'Formula:[13C2][12C-2]H2N', 'Xlink:DTSSP[88]',
             '-18.0106', 'Oxidation|INFO:note']
 L3_TEXTS = ['Oxidation', '1.5', 'Formula:[13C2][12C-2]H2N', 'U:+15.995']
@@ -56,6 +59,9 @@ def static_values(level):
     if level <= 2:
         out.append([{'mods': [['Oxidation', 1]], 'targets': ['M']}, {'mods': [['1.5', 1]], 'targets': ['K']}])
         out.append([{'mods': [['Oxidation', 2]], 'targets': ['M']}])
+        # two rules with the same modification text and different targets are two rules
+        out.append([{'mods': [['Oxidation', 1]], 'targets': ['M']}, {'mods': [['Oxidation', 1]], 'targets': ['K']}])
+        out.append([{'mods': [['1.5', 1]], 'targets': ['K']}, {'mods': [['1.5', 1]], 'targets': ['N-Term']}])
     return out
 
 
@@ -266,6 +272,69 @@ def _roundtrip(ctx, p, s, what):
     return a
 
 
+def _mods_of(a):
+    """every modification object reachable through the public fields of a parsed annotation, in a fixed order"""
+    out = []
+    for f in ('labile_mods', 'static_mods', 'isotope_mods', 'unknown_mods', 'nterm_mods', 'cterm_mods', 'charge_adducts'):
+        out += list(getattr(a, f) or [])
+    for k in sorted((a.internal_mods or {})):
+        out += list(a.internal_mods[k])
+    for iv in (a.intervals or []):
+        out += list(iv.mods or [])
+    return out
+
+
+def _leaves(x, path=()):
+    if isinstance(x, dict):
+        for k in sorted(x):
+            yield from _leaves(x[k], path + (k,))
+    elif isinstance(x, (list, tuple)):
+        for i, v in enumerate(x):
+            yield from _leaves(v, path + (i,))
+    else:
+        yield path, x
+
+
+def _history(ctx, p, s, obs):
+    """parse results are the caller's to edit: (1) editing ONE modification object of a result through its public field
+    changes one modification of that result and nothing else; (2) after every modification object of an earlier result
+    has been edited, parsing the same text again still yields what the notation denotes."""
+    for which in (0, -1):
+        st, a = lib.call(p.parse, s)
+        ctx.evals += 1
+        if st != 'ok' or hasattr(a, 'annotations'):
+            return
+        ms = _mods_of(a)
+        if len(ms) < 2:
+            break
+        before = dict(_leaves(pmodel.observed(a)))
+        ms[which].mult = ms[which].mult + 7
+        after = dict(_leaves(pmodel.observed(a)))
+        changed = sorted(set(k for k in set(before) | set(after) if before.get(k) != after.get(k)))
+        # one [val, mult] pair moves inside its sorted list at most: the multiset of leaves changes by exactly one value
+        mb, ma = sorted(map(repr, before.values())), sorted(map(repr, after.values()))
+        import collections
+        delta = sum((collections.Counter(mb) - collections.Counter(ma)).values())
+        if delta != 1:
+            ctx.fail('edit-one-mod', 'exactly one multiplier changes', {'changed_leaves': delta, 'paths': [list(c) for c in changed][:6]},
+                     text=s, edited=which, note='the multiplier of one modification object of the parse result was raised by 7')
+            break
+    st, a = lib.call(p.parse, s)
+    if st != 'ok' or hasattr(a, 'annotations'):
+        return
+    for m in _mods_of(a):
+        m.mult = m.mult + 5
+        if isinstance(m.val, str):
+            m.val = m.val + 'x'
+        else:
+            m.val = m.val + 1
+    st, a2 = lib.call(p.parse, s)
+    ctx.evals += 2
+    if st != 'ok' or pmodel.observed(a2) != obs:
+        ctx.fail('parse-after-edited-result', obs, pmodel.observed(a2) if st == 'ok' else a2, text=s,
+                 note='every modification object of an earlier parse result of the same text was edited in place first')
+
+
 def check(case, ctx):
     p = lib.pt()
     if case['kind'] == 'single':
@@ -289,6 +358,8 @@ def check(case, ctx):
             if d:
                 ctx.fail('parse-fields', None, None, text=s, diff=d)
             outs.append((s, obs))
+            if not plus and not d:
+                _history(ctx, p, s, obs)
         if len(outs) == 2 and 'static' not in case['slots']:
             if outs[0][1] != outs[1][1]:
                 ctx.fail('plus-spelling', outs[0][1], outs[1][1], text=[outs[0][0], outs[1][0]])
